@@ -138,7 +138,7 @@ func runStripe(b *built, opt checkOpts, inf core.Info, w, nRuns int, deadline ti
 		var stderr bytes.Buffer
 		cmd.Stdout = &stderr
 		cmd.Stderr = &stderr
-		runErr := cmd.Run()
+		runErr := runMonitored(cmd, filepath.Join(b.Scratch, fmt.Sprintf("w%d.cfg", w)), inf, &stderr)
 		last := -1
 		mu.Lock()
 		readRecords(out, func(r core.Record) { agg.addRecord(r); last = r.Run })
@@ -568,7 +568,7 @@ func execPlanSignatures(b *built, prop string, plan json.RawMessage, inf core.In
 	}
 	var stderr bytes.Buffer
 	cmd.Stdout, cmd.Stderr = &stderr, &stderr
-	runErr := cmd.Run()
+	runErr := runMonitored(cmd, filepath.Join(dir, "cfg"), inf, &stderr)
 	sigs := map[string]bool{}
 	readRecords(out, func(r core.Record) {
 		for _, v := range r.Outcome.Violations {
